@@ -159,8 +159,22 @@ func (h *vC19Run) probe() {
 	if h.closed {
 		return
 	}
+	// ids of the messages waiting in the queue (in-package view) and of the fetches held at the gate
+	q := h.o.msgQueue
+	q.mu.RLock()
+	queued := make([]uint64, 0, len(q.msgs))
+	for _, m := range q.msgs {
+		queued = append(queued, vC19IDN(m.msg.Header.MessageID))
+	}
+	q.mu.RUnlock()
+	fetching := make([]uint64, 0, len(h.inflight))
+	for _, c := range h.inflight {
+		fetching = append(fetching, c.id)
+	}
+	vSortU64(queued)
+	vSortU64(fetching)
 	h.evs = append(h.evs, "BProbe")
-	h.outs = append(h.outs, cApp("OProbe", cNi(h.o.msgQueue.size()), cNi(len(h.inflight))))
+	h.outs = append(h.outs, cApp("OProbe", cListN(queued), cListN(fetching)))
 }
 
 func (h *vC19Run) cacheSize() {
@@ -392,7 +406,60 @@ func vC19Schedule(t *testing.T, r *vRand, cls string, sink *vSink) bool {
 		}
 		return ms
 	}
+	after := func() {
+		if !h.blocked {
+			h.settle()
+			h.probe()
+		}
+	}
+	retID := func(id uint64, class string) bool {
+		for i, c := range h.inflight {
+			if c.id == id {
+				h.ret(i, byID[id], class)
+				return true
+			}
+		}
+		return false
+	}
 	steps := r.Range(4, 12)
+	if cls == "refetch" {
+		steps = 0
+		m := pool[r.Intn(8)]
+		batch := func() []vC19Msg {
+			ms := []vC19Msg{m}
+			for _, i := range r.Perm(8)[:r.Intn(3)] {
+				if pool[i].idn != m.idn {
+					ms = append(ms, pool[i])
+				}
+			}
+			return ms
+		}
+		h.observe(batch())
+		after()
+		if r.Bool() { // a failed fetch first: the message has to be asked for, and fetched, again
+			if retID(m.idn, vPick(r, []string{"err", "missing", "notready"})) {
+				after()
+				h.observe(batch())
+				after()
+			}
+		}
+		if retID(m.idn, "ready") {
+			after()
+			h.observe([]vC19Msg{m}) // served from the cache
+			after()
+			if hi, ok := h.setHi[m.idn]; ok {
+				time.Sleep(time.Until(hi.Add(h.ttl).Add(2 * time.Millisecond)))
+				h.show = append(h.show, "sleep")
+			}
+			h.observe(batch()) // expired: must be queued (and fetched) again
+			after()
+			if r.Chance(2, 3) && retID(m.idn, vPick(r, []string{"ready", "ready", "err"})) {
+				after()
+				h.observe([]vC19Msg{m})
+				after()
+			}
+		}
+	}
 	for s := 0; s < steps && !h.blocked; s++ {
 		switch {
 		case s == 0 || r.Chance(4, 10):
@@ -494,7 +561,7 @@ func TestVerif_C19(t *testing.T) {
 	n := vEnvInt("VERIF_N", 100)
 	sink := vOpenSink("C19_bg")
 	defer sink.Close()
-	classes := []string{"mixed", "mixed", "saturate", "never", "mixed"}
+	classes := []string{"mixed", "refetch", "saturate", "never", "mixed", "refetch"}
 	for i := 0; i < n; i++ {
 		cls := classes[i%len(classes)]
 		for try := 0; try < 5; try++ {
